@@ -3,6 +3,7 @@ package main
 import (
 	"fmt"
 	"go/ast"
+	"go/constant"
 	"go/token"
 	"go/types"
 	"sort"
@@ -285,9 +286,29 @@ func c05R2(c *Ctx, r *Report) {
 			_ = fd
 			if sf := c.ssaFunc(spec.reader); sf != nil {
 				allInstrs(sf, func(in ssa.Instruction) {
-					if sl, ok := in.(*ssa.Slice); ok && sl.Low != nil && sl.High == nil && sl.X == sf.Params[0] {
-						if k, isK := constIntOf(sl.Low); isK && k == int64(len(spec.prefix)) {
-							okStrip = true
+					if sl, ok := in.(*ssa.Slice); ok && sl.Low != nil && sl.High == nil {
+						// the token itself, or the local it was handed on in
+						fromTok := false
+						for o := range shallowOrigins(sl.X) {
+							if o == ssa.Value(sf.Params[0]) {
+								fromTok = true
+							}
+						}
+						if !fromTok {
+							return
+						}
+						// the constant, or len() of the constant prefix
+						for o := range shallowOrigins(sl.Low) {
+							if k, isK := constIntOf(o); isK && k == int64(len(spec.prefix)) {
+								okStrip = true
+							}
+							if call, isCall := o.(*ssa.Call); isCall && calleeNameSSA(&call.Call) == "builtin.len" {
+								for a := range shallowOrigins(call.Call.Args[0]) {
+									if cst, isC := a.(*ssa.Const); isC && cst.Value != nil && cst.Value.Kind() == constant.String && strings.EqualFold(constant.StringVal(cst.Value), spec.prefix) {
+										okStrip = true
+									}
+								}
+							}
 						}
 					}
 				})
